@@ -503,6 +503,7 @@ func vIntFloat(forms int) {
 // verif:desc C09-O1 comparisons of an integer with a float64 (coerceVals -> intToFloat on the integer side, then the compare<Op>Float kernels) vs sam Equal/Compare (coerce.Equal / compareNumbers converting with ToNumeric[float64]), all six operators.
 // verif:bounds one side int64 or uint64 typed with payload in the int16 / uint16 range and form in {flat,const}; the other side a flat float64 with any bit pattern; both orders; one slot; no nulls
 // verif:outside integer payloads beyond 16 bits (both runtimes use the same Go conversion float64(x)), dict/view integer side (thorough tier), non-flat float side (the Float kernels of all 16 form pairs are covered by compare_floats), float16/float32
+// verif:solver cvc5
 func VerifH_C09_O1_compare_int_float() {
 	vIntFloat(2)
 }
@@ -510,6 +511,7 @@ func VerifH_C09_O1_compare_int_float() {
 // verif:desc C09-O1 as compare_int_float with the integer side in every form.
 // verif:bounds as compare_int_float, integer side form in {flat,const,dict,view}
 // verif:tier thorough
+// verif:solver cvc5
 func VerifH_C09_O1_compare_int_float_allforms() {
 	vIntFloat(4)
 }
